@@ -13,30 +13,22 @@ pub const N_TYPES: u8 = 4;
 /// Number of marker data types available in total (the builder generator
 /// occasionally uses all of them, so that a function can declare more accesses
 /// than fit in a `TypeIds` small vector's inline storage of 8).
-pub const N_TYPES_MAX: u8 = 16;
+pub const N_TYPES_MAX: u8 = 80;
 
 /// Marker data type number `N`.
 pub struct D<const N: usize>;
 
+macro_rules! type_id_table {
+    ($i:expr; $($n:literal)*) => {
+        match $i {
+            $($n => TypeId::of::<D<$n>>(),)*
+            _ => TypeId::of::<D<255>>(),
+        }
+    };
+}
+
 pub fn type_id(i: u8) -> TypeId {
-    match i {
-        0 => TypeId::of::<D<0>>(),
-        1 => TypeId::of::<D<1>>(),
-        2 => TypeId::of::<D<2>>(),
-        3 => TypeId::of::<D<3>>(),
-        4 => TypeId::of::<D<4>>(),
-        5 => TypeId::of::<D<5>>(),
-        6 => TypeId::of::<D<6>>(),
-        7 => TypeId::of::<D<7>>(),
-        8 => TypeId::of::<D<8>>(),
-        9 => TypeId::of::<D<9>>(),
-        10 => TypeId::of::<D<10>>(),
-        11 => TypeId::of::<D<11>>(),
-        12 => TypeId::of::<D<12>>(),
-        13 => TypeId::of::<D<13>>(),
-        14 => TypeId::of::<D<14>>(),
-        _ => TypeId::of::<D<15>>(),
-    }
+    type_id_table!(i; 0 1 2 3 4 5 6 7 8 9 10 11 12 13 14 15 16 17 18 19 20 21 22 23 24 25 26 27 28 29 30 31 32 33 34 35 36 37 38 39 40 41 42 43 44 45 46 47 48 49 50 51 52 53 54 55 56 57 58 59 60 61 62 63 64 65 66 67 68 69 70 71 72 73 74 75 76 77 78 79)
 }
 
 thread_local! {
@@ -110,11 +102,33 @@ impl Kind {
 pub struct GraphSpec {
     pub fns: Vec<TestFn>,
     pub edges: Vec<(usize, usize, Kind)>,
+    /// Batch calls (`add_logic_edges` / `add_contains_edges`, arity <= 3) made
+    /// after the single-edge calls; a batch is applied pair by pair and stops at
+    /// the first rejected pair, earlier pairs of the batch stay.
+    #[serde(default)]
+    pub batches: Vec<(Vec<(usize, usize)>, Kind)>,
 }
 
 impl GraphSpec {
     pub fn n(&self) -> usize {
         self.fns.len()
+    }
+
+    /// The edge calls that are actually attempted, in order: every single-edge
+    /// call, and of every batch the pairs up to and including its first rejected
+    /// one (decided by the reference model).
+    pub fn flat_calls(&self) -> Vec<(usize, usize, Kind)> {
+        let mut calls = self.edges.clone();
+        for (pairs, k) in &self.batches {
+            for &(a, b) in pairs.iter().take(3) {
+                calls.push((a, b, *k));
+                let acc = user_edges(self.n(), &calls).accepted;
+                if !*acc.last().unwrap() {
+                    break;
+                }
+            }
+        }
+        calls
     }
 }
 
@@ -327,7 +341,40 @@ pub fn build_graph(spec: &GraphSpec) -> FnGraph<TestFn> {
             Kind::Data => panic!("specs never contain data edges"),
         };
     }
+    apply_batches(&mut b, &ids, &spec.batches);
     b.build()
+}
+
+/// Apply the spec's batch calls through the real batch API; returns per batch
+/// whether it was accepted.
+pub fn apply_batches(
+    b: &mut FnGraphBuilder<TestFn>,
+    ids: &[FnId],
+    batches: &[(Vec<(usize, usize)>, Kind)],
+) -> Vec<bool> {
+    fn go<const N: usize>(b: &mut FnGraphBuilder<TestFn>, ids: &[FnId], es: &[(usize, usize)], logic: bool) -> bool {
+        let mut arr = [(FnId::default(), FnId::default()); N];
+        for (i, e) in es.iter().enumerate().take(N) {
+            arr[i] = (ids[e.0], ids[e.1]);
+        }
+        if logic {
+            b.add_logic_edges(arr).is_ok()
+        } else {
+            b.add_contains_edges(arr).is_ok()
+        }
+    }
+    batches
+        .iter()
+        .map(|(es, k)| {
+            let logic = *k == Kind::Logic;
+            match es.len() {
+                0 => go::<0>(b, ids, es, logic),
+                1 => go::<1>(b, ids, es, logic),
+                2 => go::<2>(b, ids, es, logic),
+                _ => go::<3>(b, ids, &es[..3], logic),
+            }
+        })
+        .collect()
 }
 
 /// Edges of the built graph (public field `graph`).
@@ -369,7 +416,7 @@ pub struct GraphFacts {
 impl GraphFacts {
     pub fn new(spec: &GraphSpec, g: &FnGraph<TestFn>) -> Self {
         let n = spec.n();
-        let user = user_edges(n, &spec.edges).edges;
+        let user = user_edges(n, &spec.flat_calls()).edges;
         let mut user_reach = BitMat::from_edges(n, user.iter().map(|e| (e.0, e.1)));
         user_reach.close();
         let built = built_edges(g);
